@@ -555,7 +555,7 @@ int main(void) {
 		while (l && (line[l - 1] == '\n' || line[l - 1] == '\r')) line[--l] = 0;
 		if (!l) continue;
 		vh_set_tag(line);
-		alarm(20);
+		vh_watchdog(2, 20); /* a case costs about a millisecond of CPU time: 2 s of it (20 s of wall clock) without an answer = the code under test does not terminate */
 		if (!strncmp(line, "dnsmsg ", 7)) do_dnsmsg(line + 7);
 		else if (!strncmp(line, "dnsname ", 8)) do_dnsname(line + 8);
 		else if (!strncmp(line, "dnsx ", 5)) do_dnsx(line + 5);
@@ -564,7 +564,7 @@ int main(void) {
 		else if (!strncmp(line, "rads ", 5)) do_rads(line + 5);
 		else if (!strncmp(line, "radp ", 5)) do_radp(line + 5);
 		else printf("unknown\n");
-		alarm(0);
+		vh_watchdog(0, 0);
 	}
 	return 0;
 }
